@@ -68,13 +68,15 @@ def build_ann(a, W):
         return W.K[a[1]]
     if k == "baretype":
         return type
+    if k == "typeany":
+        return type[typing.Any]
     if k == "type":
         return type[build_t(a[1], W)]
     raise ValueError(a)
 
 
 def norm_ann(a):
-    return ("type", ("obj",)) if a[0] == "baretype" else a
+    return ("type", ("obj",)) if a[0] in ("baretype", "typeany") else a   # bare type, type[Any]: same as type[object]
 
 
 def tstr(T):
@@ -85,6 +87,8 @@ def tstr(T):
         return {"obj": "object", "any": "Any"}[k]
     if k == "baretype":
         return "type"
+    if k == "typeany":
+        return "type[Any]"
     if k == "inst":
         return f"K{T[1]}()" if T[1] >= 0 else "object()"
     if k == "bare":
@@ -239,7 +243,7 @@ def gen_shapes(tier, seed):
     A0 = [("obj",), K0, K1, ("type", ("obj",)), ("baretype",), ("type", K0), ("type", K1),
           ("type", ("list", K0)), ("type", ("list", K1)), ("type", ("list", ("obj",))),
           ("type", ("dict", K0, K1)), ("type", ("dict", K1, K0)), ("type", ("list", ("list", K0))),
-          ("type", ("tuple", K0, K1)), ("type", ("tuple", K0))]
+          ("type", ("tuple", K0, K1)), ("type", ("tuple", K0)), ("typeany",)]
     A1 = [K0, K1, ("obj",)]
     P0 = [("cls", K2), ("cls", K0), ("cls", ("list", K2)), ("cls", ("list", K0)), ("cls", ("list", ("list", K2))),
           ("cls", ("dict", K2, K2)), ("cls", ("dict", K0, K2)), ("cls", ("mylist", K2)), ("cls", ("any",)),
